@@ -12,8 +12,11 @@ EXPLANATION = (
     ' previous row of the peer removed, (fresh clock value, this peer) inserted once under this namespace, the oldest row '
     'evicted exactly when the list would exceed 5; an unknown document yields an error and no write; (R4) get_sync_peers '
     "reads this namespace's rows in reverse, every row reaching the result. (R5) the API handler doc_get_sync_peers "
-    'evaluated: it returns the list the store actor produced for the requested document. NOT decided: wall-clock '
-    'monotonicity, tables that already violate the invariant (more than 5 rows, two rows of one peer).'
+    'evaluated: it returns the list the store actor produced for the requested document. (R6) the file-format migration '
+    'that runs on open for stores written by iroh-docs 0.94..=0.98 (migrate_redb_v2_tuples::run), evaluated on an old file '
+    'holding one row per table, carries the useful-peer table (a multimap table: it has to be looked for with '
+    'list_multimap_tables). NOT decided: wall-clock monotonicity, tables that already violate the invariant (more than 5 '
+    'rows, two rows of one peer).'
 )
 ASSUMPTIONS = ["redb multimap value order = tuple order (timestamp first)", "SystemTime is monotone enough (not decided)"]
 
@@ -283,9 +286,18 @@ def r5(ctx):
     ctx.floor("C17.R5", 2)
 
 
+def r6(ctx):
+    """"the list survives reopening the store" across the file-format migration that runs on open for stores written by
+    iroh-docs 0.94..=0.98"""
+    from . import redbmig
+    redbmig.check(ctx, "C17.R6", only={"sync-peers-1"})
+    ctx.floor("C17.R6", 1)
+
+
 def run(ctx):
     ctx.run_rule("C17.R1", r1)
     ctx.run_rule("C17.R2", r2)
     ctx.run_rule("C17.R3", r3)
     ctx.run_rule("C17.R4", r4)
     ctx.run_rule("C17.R5", r5)
+    ctx.run_rule("C17.R6", r6)
